@@ -55,13 +55,37 @@ class SymNum(object):
     __hash__ = None
 
     def __eq__(self, o):
+        if isinstance(o, (int, float)) and not isinstance(o, bool) and o == 0:
+            from .values import mkbool
+
+            return mkbool(z.Not(self.nonzero_expr()))
+        if isinstance(o, (str, SymStr)):
+            return False  # a number is never equal to a text
         raise core.EngineUnsupported("numeric comparison of a symbolic number")
 
     def __ne__(self, o):
+        if isinstance(o, (int, float)) and not isinstance(o, bool) and o == 0:
+            from .values import mkbool
+
+            return mkbool(self.nonzero_expr())
+        if isinstance(o, (str, SymStr)):
+            return True
         raise core.EngineUnsupported("numeric comparison of a symbolic number")
 
+    def nonzero_expr(self):
+        """the number is not zero: a digit 1-9 occurs in the mantissa (before any exponent marker)"""
+        if self.special:
+            return True
+        t = SymStr.lift(self.text)
+        cs = []
+        seen_e = False
+        for i in range(t.cap):
+            cs.append(z.And(t.inlen(i), z.in_range_c(t.chars[i], 49, 57), z.Not(seen_e)))
+            seen_e = z.Or(seen_e, z.And(t.inlen(i), z.in_set_c(t.chars[i], (69, 101))))
+        return z.Or(cs)
+
     def __bool__(self):
-        raise core.EngineUnsupported("truth value of a symbolic number")
+        return core.decide(self.nonzero_expr())
 
 
 def int_value_wide(text, width=84):
